@@ -12,10 +12,10 @@ using namespace vf;
 
 namespace {
 
-struct Prog { int route; int nconn; int tsize; int udp; int close_order; int lat; int reuse; /* 1: the first connection's two socket objects are closed and used for another connection */ int late = 0; /* 1: the traffic starts 50 ms before virtual time crosses the next multiple of 2^32 microseconds */ int v6side = 0; /* 1: both nodes also have an IPv6 address and exchange a UDP datagram each way and a TCP transfer over it: none of that belongs in the (IPv4) capture, all of it must still work */ int nat = 0; /* 1: node A sits behind a NAT: the records still carry the true addresses of both ends */ };
+struct Prog { int route; int nconn; int tsize; int udp; int close_order; int lat; int reuse; /* 1: the first connection's two socket objects are closed and used for another connection */ int late = 0; /* 1: the traffic starts 50 ms before virtual time crosses the next multiple of 2^32 microseconds */ int v6side = 0; /* 1: both nodes also have an IPv6 address and exchange a UDP datagram each way and a TCP transfer over it: none of that belongs in the (IPv4) capture, all of it must still work */ int nat = 0; /* 1: node A sits behind a NAT: the records still carry the true addresses of both ends */ int moved = 0; /* 1: the accepted sockets are handed over by value (move-constructed by the acceptor) and the connecting sockets are move-constructed once connected */ };
 // route: 0 loss-free, 1 lossy (tail-drop queue); tsize index; udp: 0 none, 1 small both ways, 2 mixed sizes incl. 65507; lat: 0 1ms, 1 700ms (timestamps cross seconds)
 int const TSIZES[] = { 1, 3000, 20000 };
-std::string prog_str(Prog const& p) { return fmt("route=%s conns=%d tcp-bytes=%d udp=%d close-order=%d latency=%s%s", p.route ? "lossy" : "loss-free", p.nconn, TSIZES[p.tsize], p.udp, p.close_order, p.lat ? "700ms" : "1ms", p.reuse ? " +socket-reuse" : "") + (p.late ? " +starting 50ms before a multiple of 2^32 us of virtual time" : "") + (p.v6side ? " +IPv6 traffic alongside" : "") + (p.nat ? " +node A behind a NAT" : ""); }
+std::string prog_str(Prog const& p) { return fmt("route=%s conns=%d tcp-bytes=%d udp=%d close-order=%d latency=%s%s", p.route ? "lossy" : "loss-free", p.nconn, TSIZES[p.tsize], p.udp, p.close_order, p.lat ? "700ms" : "1ms", p.reuse ? " +socket-reuse" : "") + (p.late ? " +starting 50ms before a multiple of 2^32 us of virtual time" : "") + (p.v6side ? " +IPv6 traffic alongside" : "") + (p.nat ? " +node A behind a NAT" : "") + (p.moved ? " +sockets move-constructed once established" : ""); }
 
 struct Expect { int64_t t; bool tcp; std::string src, dst; int sport, dport; std::string payload; bool eof; bool new_connection = false; /* marker: a SYN from client port sport was seen: sequence numbers of that connection start over */ };
 
@@ -95,8 +95,9 @@ Res run_prog(Prog const& p, std::string const& file)
 			k->a.reset(new ip::tcp::acceptor(nB)); k->a->open(ip::tcp::v4()); k->a->bind(ip::tcp::endpoint(addr("10.0.1.1"), (unsigned short)(6000 + i))); k->a->listen();
 			k->c.reset(new ip::tcp::socket(nA)); k->s.reset(new ip::tcp::socket(nB));
 			k->c->open(ip::tcp::v4()); k->c->bind(ip::tcp::endpoint(addr("10.0.0.1"), (unsigned short)(4000 + i)));
-			k->a->async_accept(*k->s, [&, k](error_code const& ec) { if (ec) return; writer(k, false); reader(k, false); });
-			k->c->async_connect(ip::tcp::endpoint(addr("10.0.1.1"), (unsigned short)(6000 + i)), [&, k](error_code const& ec) { if (ec) return; writer(k, true); reader(k, true); });
+			if (p.moved) k->a->async_accept([&, k](error_code const& ec, ip::tcp::socket s) { if (ec) return; k->s.reset(new ip::tcp::socket(std::move(s))); writer(k, false); reader(k, false); });
+			else k->a->async_accept(*k->s, [&, k](error_code const& ec) { if (ec) return; writer(k, false); reader(k, false); });
+			k->c->async_connect(ip::tcp::endpoint(addr("10.0.1.1"), (unsigned short)(6000 + i)), [&, k](error_code const& ec) { if (ec) return; if (p.moved) { auto* m = new ip::tcp::socket(std::move(*k->c)); k->c.reset(m); } writer(k, true); reader(k, true); });
 		}
 		ip::udp::socket ua(nA), ub(nB); int udp_seen = 0; std::vector<char> ubuf(70000), ubuf2(70000);
 		ua.open(ip::udp::v4()); ua.bind(ip::udp::endpoint(addr("10.0.0.1"), 4500)); ua.non_blocking(true);
@@ -212,7 +213,7 @@ struct PcapEngine : Engine
 	uint64_t units(Args const& a) override
 	{
 		progs.clear();
-		for (int r = 0; r < 2; ++r) for (int n = 1; n <= (a.thorough() ? 3 : 2); ++n) for (int t = 0; t < 3; ++t) for (int u = 0; u < 3; ++u) for (int co = 0; co < 2; ++co) for (int l = 0; l < 2; ++l) for (int ru = 0; ru < 2; ++ru) for (int late = 0; late < 2; ++late) for (int v6 = 0; v6 < 2; ++v6) { if (v6 && (late || ru)) continue; progs.push_back(Prog{ r, n, t, u, co, l, ru, late, v6 }); if (!v6 && !late && !ru) { Prog q{ r, n, t, u, co, l, ru, late, v6 }; q.nat = 1; progs.push_back(q); } }
+		for (int r = 0; r < 2; ++r) for (int n = 1; n <= (a.thorough() ? 3 : 2); ++n) for (int t = 0; t < 3; ++t) for (int u = 0; u < 3; ++u) for (int co = 0; co < 2; ++co) for (int l = 0; l < 2; ++l) for (int ru = 0; ru < 2; ++ru) for (int late = 0; late < 2; ++late) for (int v6 = 0; v6 < 2; ++v6) { if (v6 && (late || ru)) continue; progs.push_back(Prog{ r, n, t, u, co, l, ru, late, v6 }); if (!v6 && !late && !ru) { Prog q{ r, n, t, u, co, l, ru, late, v6 }; q.nat = 1; progs.push_back(q); Prog m{ r, n, t, u, co, l, ru, late, v6 }; m.moved = 1; progs.push_back(m); } }
 		return progs.size();
 	}
 	void run_unit(uint64_t u, Ctx& ctx) override
